@@ -243,7 +243,7 @@ func NewQueueBlockingLimiterFromConfig(
 		backlogEvictDoneCtx: config.BacklogEvictDoneCtx,
 		backlog: &queue{
 			list:     list.New(),
-			ordering: OrderingFIFO,
+			ordering: config.Ordering,
 		},
 	}
 
